@@ -807,6 +807,10 @@ func TestVerifC26(t *testing.T) {
 		r.Finish(c26Rule)
 	}
 
+	if r.Thorough() {
+		c26Methods = append(c26Methods, "PATCH", "OPTIONS", "get")
+		c26Uids = append(c26Uids, 1)
+	}
 	var cnt c26Counters
 	allScen := c26AllConnScenarios()
 	twoScen := [][]string{{"absent", "absent", "absent"}, {"active", "active", "active"}}
@@ -848,7 +852,7 @@ func TestVerifC26(t *testing.T) {
 				snapNames := []string{"ok"}
 				if sock == "snap" {
 					snapNames = []string{"ok", "error"}
-					if gated {
+					if gated || (r.Thorough() && handler != nil) {
 						scens = allScen
 					}
 				}
@@ -907,11 +911,11 @@ func TestVerifC26(t *testing.T) {
 		r.Info("unpinned: "+k, "judged against the live table only")
 	}
 	r.Info("bounds", map[string]int{"endpoints": len(f.routes), "methods": len(c26Methods), "address_forms": len(c26AddrForms), "sockets": len(c26Sockets), "uids": len(c26Uids),
-		"authorization_kinds": len(c26Users), "polkit_answers": len(c26Polkits), "connection_scenarios_gated": len(allScen), "connection_scenarios_other": 2, "pinned_levels": len(c26Pinned)})
+		"authorization_kinds": len(c26Users), "polkit_answers": len(c26Polkits), "connection_scenarios_gated": len(allScen), "connection_scenarios_other": r.Pick(2, len(allScen)), "pinned_levels": len(c26Pinned)})
 	r.Finish(c26Rule)
 }
 
-const c26Rule = "every endpoint of the api table x {GET,PUT,POST,DELETE,HEAD} x 20 remote-address forms x 4 sockets x 2 uids x 4 Authorization kinds x 4 polkit answers x (snap socket: 2 pid->snap answers) x connection scenarios (interface-gated endpoint on the snap socket with well-formed credentials: all 6^3 per-interface states; otherwise none/all-active), one request each through the real router; plus the ucrednet round trip over all field combinations. distinct_nontrivial = requests to an existing handler with decodable credentials (the access level, not the credential parser, decides them)"
+const c26Rule = "every endpoint of the api table x methods (quick: GET, PUT, POST, DELETE, HEAD; thorough adds PATCH, OPTIONS, lower-case get) x 20 remote-address forms x 4 sockets x uids (quick 0, 1000; thorough adds 1) x 4 Authorization kinds x 4 polkit answers x (snap socket: 2 pid->snap answers) x connection scenarios (on the snap socket with well-formed credentials: all 6^3 per-interface states for interface-gated endpoints, in the thorough tier for every endpoint; otherwise none / all-active), one request each through the real router (methods without a handler: polkit and connection dimensions collapsed, the answer is 405 before any access decision); plus the ucrednet encode/attach/decode round trip over all field combinations (coverage.roundtrip_bounds). distinct_nontrivial = requests to an existing handler with decodable credentials (the access level, not the credential parser, decides them)"
 
 // ---------------------------------------------------------------------------------------------
 // part 2: encode / attach / decode
